@@ -1151,6 +1151,16 @@ func (s *SecureChannel) sendAsyncWithTimeout(
 		}
 	}()
 
+	// the sequence number of a message of which nothing has been written
+	// is not lost: the receiver expects it with the next chunk
+	seq := instance.sequenceNumber
+	written := false
+	defer func() {
+		if err != nil && !written {
+			instance.sequenceNumber = seq
+		}
+	}()
+
 	m, err := instance.newRequestMessage(req, reqID, authToken, timeout)
 	if err != nil {
 		return nil, err
@@ -1207,6 +1217,7 @@ func (s *SecureChannel) sendAsyncWithTimeout(
 		if n, err = s.c.Write(chunk); err != nil {
 			return nil, err
 		}
+		written = true
 		s.c.SetWriteDeadline(time.Time{})
 
 		atomic.AddUint64(&instance.bytesSent, uint64(n))
@@ -1337,8 +1348,13 @@ func (s *SecureChannel) SendMsgWithContext(ctx context.Context, instance *channe
 	instance.Lock()
 	defer instance.Unlock()
 
+	seq := instance.sequenceNumber
 	m := instance.newMessage(resp, typeID, reqID)
-	if _, err := s.writeMessageChunks(ctx, instance, reqID, m, resp); err != nil {
+	if n, err := s.writeMessageChunks(ctx, instance, reqID, m, resp); err != nil {
+		if n == 0 {
+			// nothing has been written: do not lose the sequence number
+			instance.sequenceNumber = seq
+		}
 		return err
 	}
 
@@ -1371,8 +1387,13 @@ func (s *SecureChannel) sendResponseLocked(ctx context.Context, instance *channe
 		return errors.Errorf("uasc: unknown service %T. Did you call register?", resp)
 	}
 
+	seq := instance.sequenceNumber
 	m := instance.newMessage(resp, typeID, reqID)
-	if _, err := s.writeMessageChunks(ctx, instance, reqID, m, resp); err != nil {
+	if n, err := s.writeMessageChunks(ctx, instance, reqID, m, resp); err != nil {
+		if n == 0 {
+			// nothing has been written: do not lose the sequence number
+			instance.sequenceNumber = seq
+		}
 		return err
 	}
 
